@@ -90,7 +90,10 @@ class Args(object):
         return self
 
     def is_option_set(self, name):  # type: (str) -> bool
-        return name in self._options
+        if not self._fmt.has_option(name):
+            return False
+
+        return self._fmt.get_option(name).long_name in self._options
 
     def is_option_defined(self, name):  # type: (str) -> bool
         return self._fmt.has_option(name)
@@ -99,7 +102,7 @@ class Args(object):
         argument = self._fmt.get_argument(name)
 
         if argument.name in self._arguments:
-            return self._arguments[name]
+            return self._arguments[argument.name]
 
         return argument.default
 
@@ -133,7 +136,10 @@ class Args(object):
         return self
 
     def is_argument_set(self, name):  # type: (Union[str, int]) -> bool
-        return name in self._arguments
+        if not self._fmt.has_argument(name):
+            return False
+
+        return self._fmt.get_argument(name).name in self._arguments
 
     def is_argument_defined(self, name):  # type: (Union[str, int]) -> bool
         return self._fmt.has_argument(name)
